@@ -365,6 +365,14 @@ def run(c, chk):
     else:
         chk.ok('R12.5', 'skipper states %s' % skip_states, '%d residual paths: no store to option/context state, no setter call' % nt)
 
+    # R12.9: a well-formed item may carry comments between any two of its tokens: the skipper states are transparent to them
+    if not isinstance(chk, report.SubCheck):
+        from . import c15
+        chk.rule('R12.9', 'a comment between two tokens of an undeclared item is passed over in every skipper state (rule R15.1 of C15)')
+        sub = report.SubCheck(chk, 'R12.9', 'C15', only=('R15.1',))
+        c15.run(c, sub)
+        sub.done('comments inside a skipped item')
+
 
 def why_class(why):
     import re
